@@ -140,6 +140,15 @@ Theorem copy_plumbing : copy_gr_plumbing = true /\ copy_sds_plumbing = true /\ c
 Proof. exact copy_plumbing_lemma. Qed.
 Print Assumptions copy_plumbing.
 
+(** The per-dimension loop of copy_sds: the dimension keeps its name, and its scale -- whenever it has one, whatever
+    size SDdiminfo reports (0 for an unlimited dimension) -- is written with the reported number type, from the buffer
+    that was read, with as many values as the SDS extends along that dimension. *)
+Theorem copy_sds_dim_scale_plumbing :
+  copy_sds_dim_plumbing = true /\
+  (forall dtype dim_size, truth (sds_scale_guard dtype dim_size) = negb (dtype =? 0)).
+Proof. exact copy_sds_dim_plumbing_lemma. Qed.
+Print Assumptions copy_sds_dim_scale_plumbing.
+
 (** Non-vacuity: concrete, non-trivial states meeting the hypotheses. *)
 Example traversal_nonempty : In DFTAG_RI insert_image_tags /\ In DFTAG_RIG insert_image_tags /\ In DFTAG_NDG insert_sds_tags /\
   nth_error copy_gr_created 3 = Some [100; 116; 121; 112; 101] /\ nth_error copy_gr_inquired 3 = Some [100; 116; 121; 112; 101].
